@@ -90,6 +90,11 @@ def run(ctx):
     for i in range(16 if ctx.quick else 250):
         # every third script runs on a log spanning several 64 KiB blocks (the tail repair scans backwards in blocks)
         one_script(ctx, r.fork(), 3 if ctx.quick else 5, big=([0, 0, 130, 0, 0, 260][i % 6]))
+    # the byte-level writer (tail repair + append) against the Lean storage model, incl. lines longer than the 64 KiB scan block
+    from . import c12
+    c12.storage_tie(ctx, ctx.seed + 300, 300 if ctx.quick else 4000, prop="C03")
+    for i in range(3 if ctx.quick else 30):
+        c12.big_last_line(ctx, r.fork(), prop="C03")
     ctx.cov["rule"] = ("seeded pre-states; alternating (mutating command interrupted by SIGKILL before a random system call | its write cut short at a byte offset) and "
                        "further commands, depth 3 (quick) / 5; after every fault: list/show succeed, earlier events intact, only the interrupted command's events may be "
                        "missing, the next mutation succeeds and is visible, reads succeed after it; distinct = (command, fault kind, depth)")
